@@ -1,0 +1,167 @@
+//! Verification hooks. Compiled only with `--cfg flexi_logger_verif`.
+//!
+//! Without an installed controller every hook is inert: the clock is the real clock,
+//! file-system points always proceed, schedule points return immediately.
+#![allow(clippy::missing_panics_doc, clippy::must_use_candidate)]
+use chrono::{DateTime, TimeZone};
+use std::path::Path;
+use std::sync::{Mutex, OnceLock, RwLock};
+
+/// Kind of file-system call announced by a file-system point.
+#[derive(Clone, Copy, Debug, PartialEq, Eq)]
+pub enum FsOp {
+    /// Open (create) a log file.
+    Open,
+    /// Re-open the current log file.
+    Reopen,
+    /// Rename a log file.
+    Rename,
+    /// Remove a log file.
+    Remove,
+    /// List the log directory.
+    ReadDir,
+    /// Read the metadata of a log file.
+    Metadata,
+    /// Remove the symlink.
+    SymlinkRemove,
+    /// Create the symlink.
+    SymlinkCreate,
+    /// Create the compressed file.
+    GzCreate,
+    /// Open the file that is to be compressed.
+    GzOpen,
+    /// Copy into the compressor.
+    GzCopy,
+    /// Finish the compressed file.
+    GzFinish,
+    /// A `write` call on an open log file.
+    Write,
+}
+
+/// What a file-system point should do.
+#[derive(Clone, Copy, Debug)]
+pub enum FsVerdict {
+    /// Carry on with the call.
+    Proceed,
+    /// Do not perform the call, return an error of this kind instead.
+    Fail(std::io::ErrorKind),
+    /// Abort the process right here.
+    Abort,
+}
+
+type CtFn = Box<dyn Fn(&Path) -> Option<i64> + Send + Sync>;
+type FsFn = Box<dyn Fn(FsOp, &Path) -> FsVerdict + Send + Sync>;
+type SchedFn = Box<dyn Fn(&'static str) + Send + Sync>;
+
+struct Clock {
+    now: Option<(i64, u32)>,
+    tick: i64,
+}
+fn clock() -> &'static Mutex<Clock> {
+    static C: OnceLock<Mutex<Clock>> = OnceLock::new();
+    C.get_or_init(|| Mutex::new(Clock { now: None, tick: 0 }))
+}
+fn ct_fn() -> &'static RwLock<Option<CtFn>> {
+    static C: OnceLock<RwLock<Option<CtFn>>> = OnceLock::new();
+    C.get_or_init(|| RwLock::new(None))
+}
+fn fs_fn() -> &'static RwLock<Option<FsFn>> {
+    static C: OnceLock<RwLock<Option<FsFn>>> = OnceLock::new();
+    C.get_or_init(|| RwLock::new(None))
+}
+fn sched_fn() -> &'static RwLock<Option<SchedFn>> {
+    static C: OnceLock<RwLock<Option<SchedFn>>> = OnceLock::new();
+    C.get_or_init(|| RwLock::new(None))
+}
+
+/// Sets the virtual time (seconds since the epoch, nanoseconds); `None` restores the real clock.
+pub fn set_now(secs: Option<i64>, nanos: u32) {
+    clock().lock().unwrap().now = secs.map(|s| (s, nanos));
+}
+/// Makes the virtual clock advance by this many seconds after every read.
+pub fn set_tick(secs_per_read: i64) {
+    clock().lock().unwrap().tick = secs_per_read;
+}
+/// Installs the lookup for the (virtual) creation time of a file.
+pub fn set_creation_time_fn(f: Option<CtFn>) {
+    *ct_fn().write().unwrap() = f;
+}
+/// Installs the handler of the file-system points.
+pub fn set_fs_handler(f: Option<FsFn>) {
+    *fs_fn().write().unwrap() = f;
+}
+/// Installs the handler of the schedule points.
+pub fn set_sched_handler(f: Option<SchedFn>) {
+    *sched_fn().write().unwrap() = f;
+}
+
+/// Stands in for `chrono::Local` where the clock is read.
+pub struct Local;
+impl Local {
+    /// The virtual time if one is set, the real time otherwise.
+    pub fn now() -> DateTime<chrono::Local> {
+        let mut c = clock().lock().unwrap();
+        match c.now {
+            Some((s, n)) => {
+                let t = c.tick;
+                c.now = Some((s + t, n));
+                chrono::Local.timestamp_opt(s, n).unwrap()
+            }
+            None => chrono::Local::now(),
+        }
+    }
+}
+
+pub(crate) fn creation_time(p: &Path) -> Option<DateTime<chrono::Local>> {
+    if clock().lock().unwrap().now.is_none() {
+        return None;
+    }
+    ct_fn()
+        .read()
+        .unwrap()
+        .as_ref()
+        .and_then(|f| f(p))
+        .map(|s| chrono::Local.timestamp_opt(s, 0).unwrap())
+}
+
+pub(crate) fn fs_point(op: FsOp, p: &Path) -> std::io::Result<()> {
+    let verdict = fs_fn()
+        .read()
+        .unwrap()
+        .as_ref()
+        .map_or(FsVerdict::Proceed, |f| f(op, p));
+    match verdict {
+        FsVerdict::Proceed => Ok(()),
+        FsVerdict::Fail(kind) => Err(std::io::Error::new(kind, "injected by verif_hooks")),
+        FsVerdict::Abort => std::process::abort(),
+    }
+}
+
+pub(crate) fn sched_point(name: &'static str) {
+    if let Some(f) = sched_fn().read().unwrap().as_ref() {
+        f(name);
+    }
+}
+
+/// An open log file whose `write` calls pass a file-system point first.
+pub(crate) struct FaultyFile {
+    file: std::fs::File,
+    path: std::path::PathBuf,
+}
+impl FaultyFile {
+    pub(crate) fn new(file: std::fs::File, path: &Path) -> Self {
+        Self {
+            file,
+            path: path.to_path_buf(),
+        }
+    }
+}
+impl std::io::Write for FaultyFile {
+    fn write(&mut self, buf: &[u8]) -> std::io::Result<usize> {
+        fs_point(FsOp::Write, &self.path)?;
+        self.file.write(buf)
+    }
+    fn flush(&mut self) -> std::io::Result<()> {
+        self.file.flush()
+    }
+}
